@@ -2,6 +2,7 @@ import WfModel.Timers
 import WfProofs.SerialLemmas
 import WfProofs.EngineReduce
 import WfProofs.TimersReload
+import WfProofs.TimersErase
 /-!
 Helper lemmas for C14 (2): a run whose only pending work was a timer is *stuck for good* once
 the timer is gone.
@@ -359,13 +360,66 @@ theorem init_good {cfg : Cfg} {w : Nat} {st : State} (now : Int) (hg : Good cfg 
 
 /-! ### the server around it -/
 
-/-- what is assumed of the persisted prefix: at every clock it replays, without an exit command,
-to a good state; no step accepts type `w`; the workflow has no timeout -/
+/-- `Good`, as a check -/
+def goodB (cfg : Cfg) (w : Nat) (st : State) : Bool :=
+  st.isRunning && cfg.steps.all (fun c =>
+    (st.workers c.name).queue.isEmpty && (st.workers c.name).inProg.isEmpty &&
+      (st.workers c.name).waiters.all (fun x => x.waitTy != w && x.req.isNone && !x.hasReq))
+
+theorem goodB_good {cfg : Cfg} {w : Nat} {st : State} (h : goodB cfg w st = true) : Good cfg w st := by
+  simp only [goodB, Bool.and_eq_true, List.all_eq_true, List.isEmpty_iff, bne_iff_ne, ne_eq,
+    Option.isNone_iff_eq_none, Bool.not_eq_true'] at h
+  exact ⟨h.1, fun c hc => ⟨(h.2 c hc).1.1, (h.2 c hc).1.2⟩, fun c hc x hx => ⟨((h.2 c hc).2 x hx).1.1, ((h.2 c hc).2 x hx).1.2, ((h.2 c hc).2 x hx).2⟩⟩
+
+theorem good_sim {cfg : Cfg} {w : Nat} {a b : State} (h : Sim a b) (hg : Good cfg w a) : Good cfg w b := by
+  refine ⟨h.1 ▸ hg.running, ?_, ?_⟩
+  · intro c hc
+    have hs := h.2 c.name
+    obtain ⟨hq, hi⟩ := hg.quiet c hc
+    refine ⟨hs.queue ▸ hq, ?_⟩
+    have := hs.length
+    rw [hi] at this
+    exact List.length_eq_zero_iff.mp this.symm
+  · intro c hc x hx
+    rw [← (h.2 c.name).waiters] at hx
+    exact hg.waiters c hc x hx
+
+/-- the persisted prefix replays (here: at clock 0), without raising and without an exit command,
+to a good state -/
+def replayGoodB (cfg : Cfg) (pol : Policy) (w : Nat) (base : List Tick) : Bool :=
+  match replayAt cfg pol base 0 with
+  | some (P, none) => goodB cfg w P
+  | _ => false
+
+/-- what is assumed of the persisted prefix: it replays, without an exit command, to a good state
+(checked at clock 0; `TimeIndep` carries it to every clock); no step accepts type `w`; the
+workflow has no timeout -/
 structure StuckBase (c : SrvCfg) (pol : Policy) (w : Nat) (base : List Tick) : Prop where
   unaccepted : Unaccepted c.cfg w
   noTimeout : c.timeout = none
   nonempty : base ≠ []
-  replay : ∀ now, ∃ P, replayAt c.cfg pol base now = some (P, none) ∧ Good c.cfg w P
+  timeIndep : TimeIndep pol
+  replay0 : replayGoodB c.cfg pol w base = true
+
+theorem StuckBase.replay {c : SrvCfg} {pol : Policy} {w : Nat} {base : List Tick} (hb : StuckBase c pol w base)
+    (now : Int) : ∃ P, replayAt c.cfg pol base now = some (P, none) ∧ Good c.cfg w P := by
+  have h0 := hb.replay0
+  have hs := replayAt_sim c.cfg hb.timeIndep base 0 now
+  unfold replayGoodB at h0
+  cases h1 : replayAt c.cfg pol base 0 with
+  | none => simp [h1] at h0
+  | some pe =>
+    obtain ⟨P0, e0⟩ := pe
+    cases e0 with
+    | some x => simp [h1] at h0
+    | none =>
+      simp only [h1] at h0 hs
+      cases h2 : replayAt c.cfg pol base now with
+      | none => simp [h2] at hs
+      | some qe =>
+        obtain ⟨Q, e⟩ := qe
+        simp only [h2] at hs
+        exact ⟨Q, by rw [← hs.2], good_sim hs.1 (goodB_good h0)⟩
 
 structure SrvStuck (c : SrvCfg) (w : Nat) (base : List Tick) (s : Srv) : Prop where
   status : s.status = .running
